@@ -204,6 +204,8 @@ def run(ctx):
         cc = {"op": "newton", "id": k, "a": C.fx(a), "b": C.fx(b), "c": C.fx(c), "guess": C.fx(guess),
               "hlo": C.fx(hlo), "hhi": C.fx(hhi)}
         cc.update({kk: (C.fx(v) if isinstance(v, float) else v) for kk, v in cfg.items()})
+        if prof == "default":
+            cc["use_defaults"] = True      # call with the solver's own default arguments
         cases.append(cc)
         mlines.append("newton %d %s %s %s %s %s %s %d %s %s %s %s %s %s %s" % (
             k, C.fx(a), C.fx(b), C.fx(c), C.fx(guess), C.fx(hlo), C.fx(hhi), cfg["maxit"], "T" if cfg["aitken"] else "F",
@@ -415,26 +417,33 @@ def run(ctx):
             ctx.count(["newton", info["id"], info["a"], info["b"], info["c"], info["guess"], info["hard_bounds"], sorted(info["cfg"].items())],
                       mstat in ("C", "M"))
             ctx.tally("newton-result:" + (mstat if mstat != "F" else "F" + r[1]))
-            if mstat == "F":
-                want = "F" + r[1]
-                if ist != want:
-                    rp = dict(rep); rp["impl"] = im; rp["model"] = " ".join(r)
-                    ctx.disagree("numba_newton_raphson: implementation %s, modelled solver fails with %s "
-                                 "(F0 ZeroDivisionError, F1 stationary point, F2 no convergence)" % (ist, want), rp)
-                continue
-            mxv = C.unfx(r[1])
-            if ist != "ok":
-                rp = dict(rep); rp["impl"] = im; rp["model"] = " ".join(r)
-                ctx.disagree("numba_newton_raphson raised (%s) where the modelled solver returns %r" % (ist, mxv), rp)
-                continue
-            ixv = C.unfx(im["x"])
-            rp = dict(rep); rp["impl"] = ixv; rp["model"] = mxv
-            tol = 4 * max(info["cfg"]["atol"], info["cfg"]["rtol"] * abs(mxv))
-            if not C.close(ixv, mxv, 1e-8, 1e-10):
-                if abs(ixv - mxv) <= tol:
-                    loose.append(("newton root", ixv, mxv, rp))
-                else:
-                    ctx.disagree("numba_newton_raphson returns %r, modelled solver %r" % (ixv, mxv), rp)
+            # trajectory: the points at which f was evaluated, in order (model: logging closure; impl: logging test function)
+            mtr = [C.unfx(v) for v in r[6:]]
+            itr = [C.unfx(v) for v in im.get("trace", [])]
+            npre = 0
+            for u, v in zip(itr, mtr):
+                if not C.close(u, v, 1e-9, 1e-12):
+                    break
+                npre += 1
+            same_traj = npre == len(mtr) == len(itr)
+            mres = ("F" + r[1]) if mstat == "F" else "ok"
+            mxv = None if mstat == "F" else C.unfx(r[1])
+            ixv = C.unfx(im["x"]) if ist == "ok" else None
+            rp = dict(rep); rp["impl"] = {"status": ist, "x": ixv, "evaluations": len(itr)}
+            rp["model"] = {"status": mres, "x": mxv, "evaluations": len(mtr)}
+            rp["first_different_evaluation"] = npre
+            rp["impl_trace"] = itr[max(0, npre - 2):npre + 3]; rp["model_trace"] = mtr[max(0, npre - 2):npre + 3]
+            same_res = (ist == mres) and (mxv is None or C.close(ixv, mxv, 1e-8, 1e-10))
+            if same_traj and same_res:
+                pass
+            elif (not same_traj) and npre >= min(len(mtr), len(itr)) - 2 and npre >= 3 and ist == mres == "ok" and \
+                    abs(ixv - mxv) <= 4 * max(info["cfg"]["atol"], info["cfg"]["rtol"] * abs(mxv)):
+                # identical up to the last iteration: the final convergence test was decided within rounding error
+                loose.append(("newton trajectory (last step)", ixv, mxv, rp))
+            else:
+                ctx.disagree("numba_newton_raphson departs from the modelled solver at evaluation %d of %d/%d: implementation %s %r, model %s %r "
+                             "(F0 ZeroDivisionError, F1 stationary point, F2 no convergence)"
+                             % (npre, len(itr), len(mtr), ist, ixv, mres, mxv), rp)
             # bracket invariant, observed on the model run: lo <= x <= hi when bounded
             lo_, hi_, bd = C.unfx(r[2]), C.unfx(r[3]), r[4] == "T"
             if bd and mstat == "C" and not (lo_ - 1e-12 <= mxv <= hi_ + 1e-12):
@@ -535,8 +544,23 @@ def run(ctx):
         ctx.tally("tolerance-level-difference(borderline)", len(loose))
 
 
-READY = False
-LEVEL_TEXT = ""
-LEVEL_NOTE = ""
-TECHNIQUE = "Coq proof (definitional laws, iteration invariants, exact-root monotonicity, bracket invariant + IVT) + extracted-model correspondence + residual oracles"
+READY = True
+LEVEL_TEXT = ("Theorems (Coq, real-number model of roughness.py, tools/solvers.py and balance/solvers.py): the Charnock relation and the drag "
+              "coefficient are the stated formulas; a plain Charnock step from a positive iterate is positive; for ANY vector function, batch and "
+              "configuration whose last budgeted iteration is not an Aitken step (default 100), every output of fixed_point_iteration that is not NaN "
+              "was produced by a plain step x = bound(F(prev)) with |x-prev| < atol and |x-prev|/max(|prev|,atol) < rtol, and a NaN guess gives NaN "
+              "(hence missing wind speed gives missing roughness and drag); without the viscous term the exact root of the Charnock equation on "
+              "(0, 10 e^-2) is unique and strictly increasing in U, and so is the drag; for ANY function f and configuration the Newton/secant/"
+              "bisection hybrid keeps its bracket bookkeeping sound (stored values belong to stored bounds; once bounded the signs differ, the "
+              "iterate stays inside, the bracket never grows or gets lost), for continuous f the final bracket contains a root, and 'converged' means "
+              "a small last step; the Janssen roughness is exp(log-root): missing or positive. The model is tied to the code by running the extracted "
+              "model against the Charnock functions (scalar/array/DataArray, NaNs, budgets), fixed_point_iteration on analytic vector functions and "
+              "numba_newton_raphson on analytic test functions incl. the real log_dimensionless_critical_height (1e-9 relative).")
+LEVEL_NOTE = ("NOT proved, validated by execution only: convergence of the Charnock iteration within 100 iterations (family scan U in [0.1,80], "
+              "10^5 points in thorough); the residual |z0 - G(z0)| <= 1e-4 max(z0,1e-4) of the implicit equation at the returned value (the solver's "
+              "own tolerance - for z0 < 1e-4 m this is an absolute 1e-8 m, i.e. loose in relative terms); monotonicity of returned values; the 1e-4 "
+              "stress-balance residual of the Janssen roughness - the stress function (resolved wave stress + WAM tail + viscous) is not modelled, the "
+              "residual is evaluated on the implementation (roughness() fed back into stress()) on ST4 wind seas whose scanned balance has one sign "
+              "change. No rounding-error bound. Trusted: Coq kernel, extraction, numba, harness tolerances; axioms: standard-library reals + classic.")
+TECHNIQUE = "Coq proof (definitional laws, loop invariants by induction, exact-root monotonicity, bracket invariant + IVT) + extracted-model correspondence + residual oracles"
 DESIGN_REF = "DESIGN.md section 5 C10"
